@@ -422,3 +422,186 @@ fn s_peek_blocked() {
     }
     kani::cover!(bc.is_some() && bs.is_some() && !is_c, "server blocking ends first");
 }
+
+// ------------------------------------------------------------------------------------------
+// C14 / C15: the network stack, one event at a time (no machines, no integration delays)
+// ------------------------------------------------------------------------------------------
+fn any_side_event(event: TriggerEvent, time: Instant) -> SimEvent {
+    SimEvent { event, time, integration_delay: Duration::ZERO, client: kani::any(), contains_padding: false, bypass: false, replace: false, debug_note: None }
+}
+fn only_event<'a>(q: &'a EventQueue) -> (&'a SimEvent, u8) {
+    // the single queued event of a side and the internal queue it sits in (0 base, 1 blocking, 2 bypassable, 3 internal)
+    if let Some(e) = q.base.peek() {
+        (e, 0)
+    } else if let Some(e) = q.blocking.peek() {
+        (e, 1)
+    } else if let Some(e) = q.bypassable.peek() {
+        (e, 2)
+    } else {
+        (q.internal.peek().unwrap(), 3)
+    }
+}
+
+#[kani::proof]
+#[kani::unwind(4)]
+#[kani::stub(alloc::fmt::format, format_stub)]
+#[kani::stub(rand::thread_rng, no_thread_rng)]
+fn s_stack_send_recv() {
+    let t0 = any_instant();
+    let none: &[Machine] = &[];
+    let side = state_with(none, t0);
+    let mut other = state_with(none, t0);
+    let delay = any_duration_upto(10_000_000);
+    let mut network = NetworkBottleneck::new(Network::new(delay, None), Duration::from_secs(1), None);
+    let mut sq = empty_queue();
+    let now = any_instant();
+    let kind: u8 = kani::any();
+    kani::assume(kind < 3);
+    let padding: bool = kani::any();
+    let mut next = any_side_event(match kind { 0 => TriggerEvent::NormalSent, 1 => TriggerEvent::TunnelSent, _ => TriggerEvent::TunnelRecv }, now);
+    if kind != 0 {
+        next.contains_padding = padding;
+        next.bypass = kani::any();
+        next.replace = kani::any();
+    }
+    let activity = sim_network_stack(&next, &mut sq, &side, &mut other, &mut network, &now);
+    assert!(sq.len() == 1, "C15: one packet event produces exactly one follow-up event: packets are neither created, duplicated nor lost");
+    let (mine, theirs) = if next.client { (&sq.client, &sq.server) } else { (&sq.server, &sq.client) };
+    match kind {
+        0 => {
+            assert!(!activity && mine.len() == 1, "C14: a normal packet sent stays on its side until it enters the tunnel");
+            let (e, q) = only_event(mine);
+            assert!(e.event == TriggerEvent::TunnelSent && e.time == now && e.client == next.client && !e.contains_padding && !e.bypass && !e.replace && q == 1,
+                "C14: a normal packet enters the tunnel at exactly the time it was sent, as a normal (non-padding, blockable) packet");
+        }
+        1 => {
+            assert!(activity && theirs.len() == 1, "C15: every tunnel-sent packet is received by the other side exactly once");
+            let (e, q) = only_event(theirs);
+            assert!(e.event == TriggerEvent::TunnelRecv && e.client != next.client && q == 3, "C15: a tunnel-sent packet becomes a tunnel-received packet on the other side");
+            assert!(e.contains_padding == padding, "C15: a tunnel-received packet is of the same kind (normal or padding) as the packet sent");
+            assert!(e.time == now + delay, "C14: the packet is received exactly one network delay after it was sent (C15: at least one)");
+        }
+        _ => {
+            assert!(activity && mine.len() == 1, "C15: a tunnel-received packet is delivered on the side that received it");
+            let (e, q) = only_event(mine);
+            let want = if padding { TriggerEvent::PaddingRecv } else { TriggerEvent::NormalRecv };
+            assert!(e.event == want && e.time == now && e.client == next.client && e.contains_padding == padding && q == 3,
+                "C15: a received tunnel packet is delivered as a received packet of the same kind at the same time");
+        }
+    }
+    kani::cover!(kind == 1 && padding && delay == Duration::ZERO, "padding crossing a zero-delay network");
+    core::mem::forget(sq);
+    core::mem::forget(side);
+    core::mem::forget(other);
+    core::mem::forget(network);
+}
+
+/// PaddingSent: either one padding TunnelSent is queued, or (replace) an already queued normal
+/// packet takes its place: the normal packet is re-labelled, never duplicated, never turned into padding.
+#[kani::proof]
+#[kani::unwind(4)]
+#[kani::stub(alloc::fmt::format, format_stub)]
+#[kani::stub(rand::thread_rng, no_thread_rng)]
+fn s_stack_padding_sent() {
+    let t0 = any_instant();
+    let none: &[Machine] = &[];
+    let mut side = state_with(none, t0);
+    let mut other = state_with(none, t0);
+    side.blocking_until = any_opt_instant();
+    side.blocking_bypassable = kani::any();
+    let mut network = NetworkBottleneck::new(Network::new(any_duration_upto(10_000_000), None), Duration::from_secs(1), None);
+    let mut sq = empty_queue();
+    let now = any_instant();
+    let is_client: bool = kani::any();
+    // possibly one normal packet already waiting to enter the tunnel on this side
+    let queued: bool = kani::any();
+    let qtime = any_instant();
+    kani::assume(qtime <= now);
+    if queued {
+        sq.push_sim(SimEvent { event: TriggerEvent::TunnelSent, time: qtime, integration_delay: Duration::ZERO, client: is_client,
+            contains_padding: false, bypass: false, replace: false, debug_note: None });
+    }
+    let (bypass, replace): (bool, bool) = (kani::any(), kani::any());
+    let next = SimEvent { event: TriggerEvent::PaddingSent { machine: MachineId::from_raw(0) }, time: now, integration_delay: Duration::ZERO,
+        client: is_client, contains_padding: true, bypass, replace, debug_note: None };
+    let activity = sim_network_stack(&next, &mut sq, &side, &mut other, &mut network, &now);
+    assert!(!activity, "C15: sending padding into the local queue is not network activity");
+    let mine = if is_client { &sq.client } else { &sq.server };
+    let theirs = if is_client { &sq.server } else { &sq.client };
+    assert!(theirs.len() == 0, "C15: padding sent on one side queues nothing on the other side");
+    let normals = mine.blocking.iter().chain(mine.bypassable.iter()).filter(|e| !e.contains_padding).count();
+    let paddings = mine.blocking.iter().chain(mine.bypassable.iter()).filter(|e| e.contains_padding).count();
+    assert!(normals == queued as usize, "C15: normal packets are never created, duplicated or dropped by padding (replace re-labels the queued packet)");
+    if replace && queued {
+        assert!(paddings == 0, "C15: a replaced padding adds no packet: the queued normal packet is sent in its place");
+        let e = mine.blocking.peek().or(mine.bypassable.peek()).unwrap();
+        assert!(e.event == TriggerEvent::TunnelSent && e.time == qtime && !e.contains_padding, "C15: the queued normal packet keeps its kind and time");
+        assert!(e.bypass == bypass, "C16: the queued normal packet may bypass blocking only when the padding it replaces claims bypass");
+    } else {
+        assert!(paddings == 1 && mine.len() == 1 + queued as usize, "C15: padding that replaces nothing is queued as exactly one padding packet");
+        let e = if bypass { mine.bypassable.peek() } else { mine.blocking.iter().find(|e| e.contains_padding) };
+        assert!(e.is_some(), "C16: only padding whose action has the bypass flag is queued as bypassable");
+        let e = e.unwrap();
+        assert!(e.event == TriggerEvent::TunnelSent && e.time == now && e.contains_padding && e.bypass == bypass && e.replace == replace && e.client == is_client,
+            "C15: queued padding stays padding and carries its action's flags");
+    }
+    kani::cover!(replace && queued && bypass, "bypass padding replaced by the queued normal packet");
+    core::mem::forget(sq);
+    core::mem::forget(side);
+    core::mem::forget(other);
+    core::mem::forget(network);
+}
+
+// ------------------------------------------------------------------------------------------
+// C19: totality of the bottleneck model
+// ------------------------------------------------------------------------------------------
+#[kani::proof]
+#[kani::unwind(3)]
+fn s_bottleneck_new() {
+    let pps: usize = kani::any();
+    kani::assume(pps >= 1);
+    let net_pps: Option<usize> = if kani::any() { Some(pps) } else { None };
+    let qpps: usize = kani::any();
+    kani::assume(qpps >= 1);
+    let queue_pps: Option<usize> = if kani::any() { Some(qpps) } else { None };
+    let network = NetworkBottleneck::new(Network::new(any_duration_upto(10_000_000), net_pps), Duration::from_secs(1), queue_pps);
+    assert!(network.client_aggregate_base_delay == Duration::ZERO && network.server_aggregate_base_delay == Duration::ZERO,
+        "C19: a fresh network model starts without aggregate delay");
+    kani::cover!(net_pps.is_some() && pps > u32::MAX as usize, "packets-per-second limit beyond 32 bits");
+    core::mem::forget(network);
+}
+
+/// pick_next with nothing but two queued packets (one per side): earliest first, client first on
+/// ties, exactly one event consumed, time never moves backwards.
+#[kani::proof]
+#[kani::unwind(4)]
+#[kani::stub(alloc::fmt::format, format_stub)]
+#[kani::stub(rand::thread_rng, no_thread_rng)]
+fn s_pick_next_two() {
+    let t0 = any_instant();
+    let none: &[Machine] = &[];
+    let mut client = state_with(none, t0);
+    let mut server = state_with(none, t0);
+    let mut network = NetworkBottleneck::new(Network::new(any_duration_upto(10_000_000), None), Duration::from_secs(1), None);
+    let mut sq = empty_queue();
+    let d1 = any_duration_upto(1_000_000_000);
+    let d2 = any_duration_upto(1_000_000_000);
+    sq.push(TriggerEvent::NormalSent, true, false, t0 + d1, Duration::ZERO);
+    sq.push(TriggerEvent::NormalSent, false, false, t0 + d2, Duration::ZERO);
+    let next = pick_next(&mut sq, &mut client, &mut server, &mut network, t0);
+    assert!(next.is_some(), "C19: with queued packets there is a next event");
+    let next = next.unwrap();
+    assert!(next.time >= t0, "C19: simulated time never moves backwards");
+    if d1 <= d2 {
+        assert!(next.client && next.time == t0 + d1, "C14: packets are processed in time order (client first on identical timestamps), never shifted in time");
+    } else {
+        assert!(!next.client && next.time == t0 + d2, "C14: packets are processed in time order, never shifted in time");
+    }
+    assert!(next.event == TriggerEvent::NormalSent && sq.len() == 1, "C15: picking the next event consumes exactly that event");
+    kani::cover!(d1 == d2, "identical timestamps");
+    core::mem::forget(sq);
+    core::mem::forget(client);
+    core::mem::forget(server);
+    core::mem::forget(network);
+    core::mem::forget(next);
+}
